@@ -247,7 +247,7 @@ def quantifiers(fn):
 import math  # noqa: E402
 
 CONSTS = {"np.pi": math.pi, "math.pi": math.pi, "numpy.pi": math.pi, "math.tau": math.tau, "np.tau": math.tau,
-          "math.e": math.e}
+          "math.e": math.e, "math.inf": math.inf, "np.inf": math.inf, "numpy.inf": math.inf, "np.e": math.e}
 
 
 def const_value(e):
